@@ -12,8 +12,7 @@ INFO = {
                "integer OR of two literals; that an integer literal becomes an integer payload by a direct integer "
                "parse of the right width and a double goes through the one f64->JSON normalisation whose "
                "integrality window is exact (signed zeros included); input is pulled one byte at a time through io::Bytes "
-               "and a short read is never taken for the end of input; one turn of the read loop hands the value it "
-               "parsed to the pipeline exactly once.",
+               "and a short read is never taken for the end of input.",
     "not_decided": "That values come out unchanged as a whole (UTF-8 decoding by String::from_utf8, str::parse, one "
                    "row per value at run time): those are run-time value statements.",
     "trusted": ["sa/tables/rfc8259.toml (transcribed from RFC 8259)", "std: str::parse::<u64|i64|f64>, String::from_utf8"],
@@ -35,6 +34,5 @@ def run(ctx, rep):
     # the bytes reach the tokenizer one at a time and end of input is only the exhausted source; every parsed value
     # is handed to the pipeline once, in the turn that parsed it (shared with C16 / C17)
     from rules import c16, c17
-    c16.raw_io(rep, lib)
+    c16.raw_io(rep, lib, side="input")
     c16.eof_distinct(rep, lib)
-    c17.counters(rep, lib)
